@@ -196,7 +196,8 @@ func IsAvailable(name) (r)
   pure
   ensures [C10] r && old(store).has("\x20" ++ split(name, ".")[len(split(name, ".")) - 1]) ==> exists j Int :: 0 <= j && j < len(split(name, ".")) && !okName(store, sfx(split(name, "."), j))
   // unavailable while the name and its whole parent chain are registered and unexpired
-  ensures [C10] (forall j Int {sfx(split(name, "."), j)} :: 0 <= j && j < len(split(name, ".")) ==> okName(store, sfx(split(name, "."), j))) ==> !r
+  ensures [C10] old(store).has("\x20" ++ split(name, ".")[len(split(name, ".")) - 1]) &&
+        (forall j Int {sfx(split(name, "."), j)} :: 0 <= j && j < len(split(name, ".")) ==> okName(store, sfx(split(name, "."), j))) ==> !r
 @*/
 
 /*@
